@@ -14,6 +14,22 @@ CLAIMS = {
         text="The vertical index is proved to be floor(alt*2^v/2^25) under IEEE semantics for every zoom (both float operations are power-of-two scalings with explicit no-underflow obligations); the horizontal kernel is proved equal to the property's x and y formulas over ideal reals (x with the lon=180 fold, y through the trusted identity log(tan p+1/cos p)=asinh(tan p)), with 0<=x,y<=2^h; the list functions are proved to reject bad zooms and nil points and otherwise to return, in order and with the same length, the horizontal tile joined with the vertical tile of each point (spatial-ID form: same components in z/f/x/y order).",
         note=TRUST + "Rounding of the x and y computations is NOT decided: three witness findings (KNOWN-FINDING lines) record that x can be one too large within one rounding step below a tile edge, can equal 2^h just below lon=180, and that a negative subnormal altitude gets index 0. The Mercator bound |asinh(tan lat)| <= pi for |lat| <= 85.0511287798 is assumed.",
         tech="deductive verification: WP VCs over go/ssa, real-arithmetic float model (exact power-of-two scalings, ideal reals for transcendental parts), pure-function abstraction, SMT", ref="4 C01"),
+    "C15": dict(
+        text="Every exported error-returning function of shape, integrate, operated, detector, transform and object except the two projection wrappers (third-party wgs84 closure, see C18) is under contract: for every string, integer and float argument the function does not panic (S obligations on every index, slice, nil dereference, division and conversion of the function and of the repository callees it is verified against), and the documented refusals are postconditions: zoom outside 0..35 (1..31 for quadkeys), malformed IDs (wrong arity or non-integer fields, exact iff where the function parses all fields), nil points, unknown options, negative layer counts and radii, longitude/latitude limits with the 1e-10 latitude cut, negative tile zooms; the shift helpers return the empty ID.",
+        note=TRUST + "Callees outside the verified subset are ASSUMED to terminate without panicking (listed in the evidence as assumed contracts): the midpoint recursion of the line, the unit-cell helpers of the merge (aliased maps), the binary-subdivision altitude helper, the third-party geodesy / convex-distance / radix-tree code. The corridor is verified for layer counts up to 1024 (assumecall restriction). ConvertPointListToProjectedPointList / ConvertProjectedPointListToPointList are not under contract.",
+        tech="deductive verification: WP VCs over go/ssa with safety obligations on every instruction, modular callee contracts, SMT", ref="4 C15"),
+    "C04": dict(category="other",
+        text="PARTIAL. Proved: the grouping ancestor (ExtendedSpatialID.Higher) is the floor ancestor on every axis for all 36x36 zoom differences and indices of both signs (the defect at f = -1/0 was repaired, see known_findings.txt); MergeExtendedSpatialIds / MergeSpatialIds reject zooms outside 0..35 and malformed IDs exactly, do not panic, and return a duplicate-free list (postcondition of Unique).",
+        note=TRUST + "NOT decided: region equality, the density rule and idempotence. The merge body keeps aliased unit-cell maps (map[string]*HighSpatialID sharing map[string]struct{}), outside the verified subset; NewUnitDividedSpatialID, NewHighSpatialID, Merge and IsDense are assumed total and otherwise unconstrained.",
+        tech="deductive verification of the kernel and of the wrapper's error/duplicate clauses (WP VCs over go/ssa, SMT); remaining clauses not applicable to the technique as built", ref="4 C04"),
+    "C06": dict(category="other",
+        text="PARTIAL. Proved for GetExtendedSpatialIdsOnLine / GetSpatialIdsOnLine: nil end points and zooms outside 0..35 are errors; otherwise the result is duplicate-free, contains the voxel of each end point (the same IDs the point lookup of C01 returns) and is exactly that one ID when both end points share a voxel.",
+        note=TRUST + "NOT decided: that every returned voxel is touched by the segment and that the chain has no gaps - these depend on the float midpoint recursion (middleSpatialIds), which is only assumed to terminate and to emit IDs through its callback (emit idiom).",
+        tech="deductive verification of the wrapper (WP VCs over go/ssa, callback modelled as an unknown emitted sequence appended to the captured slice, SMT)", ref="4 C06"),
+    "C14": dict(category="other",
+        text="PARTIAL. Proved for GetExtendedSpatialIdsWithinRadiusOfLine and FitClearanceAroundExtendedSpatialID: nil points, zooms outside 0..35, negative radius / clearance and malformed IDs are errors; no panic in the repository code; reported layer counts are non-negative; the corridor result is duplicate-free; the layer fit uses the start point's own ID (order-determinism obligations of C16, after the repair recorded in known_findings.txt).",
+        note=TRUST + "NOT decided: containment of the line's IDs, the radius-0 identity, the distance bound and the subset relation between the two modes (third-party convex-distance and geodesy code, assumed total). Verified for layer counts up to 1024.",
+        tech="deductive verification of error and duplicate clauses (WP VCs over go/ssa, SMT) with third-party code abstracted", ref="4 C14"),
     "C03": dict(
         text="Contracts on the real per-axis kernels (HorizontalZoomMinMax, HorizontalZoom, VerticalZoom) prove, for every (input zoom, output zoom) pair in 0..35^2 and every index, the exact enumeration: zoom-in yields the 2^d (4^d) descendants in row-major order, zoom-out the floor ancestor (negative vertical indices included). Loop invariants are quantified, so list lengths are unbounded.",
         note=TRUST + "The cross-product/Unique level of ChangeExtendedSpatialIdsZoom is covered by the contracts of Unique and of the kernels; its own set-level postcondition is listed in DESIGN.md as not yet discharged.",
